@@ -2,7 +2,7 @@
 From Coq Require Import Ascii String List Bool Arith ZArith QArith Lia.
 From Coq Require Import Permutation.
 From Verif Require Model.C02_Formats.
-From Verif Require Import Lib.Text Lib.Dyadic Lib.C12_ExpFormat Lib.Fixed Model.C12_Nav Model.C12_Header Gen.C12_Tables Proofs.C12_Nav Proofs.C12_Transfer Proofs.C12_Time Proofs.C12_Header.
+From Verif Require Import Lib.Text Lib.Dyadic Lib.C12_ExpFormat Lib.Fixed Model.C12_Nav Model.C12_Header Gen.C12_Tables Proofs.C12_Nav Proofs.C12_Transfer Proofs.C12_Time Proofs.C12_Header Proofs.C12_Names.
 Module M2 := Verif.Model.C02_Formats.
 Import ListNotations.
 Local Open Scope string_scope.
@@ -264,6 +264,28 @@ Example header_example :
   forallb (hline_ok V3) ex_header = true
   /\ match meta_of true V3 ex_header meta0 with Some m => Nat.eqb (length (m_iono m)) 1 && Nat.eqb (length (m_tsc m)) 1 | None => false end = true.
 Proof. exact ex_header_ok. Qed.
+
+(* ------------------------------------------------------------------ the system of a RINEX 2 file is read off its name *)
+(* ssssdddf.yyt and ssssdddf.yyt.gz (any stem / extension text without dots): the system is the regenerated table's entry for
+   the lower-cased last letter of the FIRST suffix, for rinex2_nav and (no ".rnx" in it) rinex212_nav; the regenerated
+   SYSTEM_FILE_EXTENSION tables are n->G, g->R, l->E for every string; long 2.12 names give the upper-cased system letter *)
+Theorem v2_system_from_name :
+  (forall stem e t ext, no_dot stem = true -> stem <> "" -> no_dot e = true -> last_char e = Some t ->
+     (sys_of_name V2 ext (stem ++ String "." e) = alookup (String (lower t) "") ext /\
+      sys_of_name V2 ext (stem ++ String "." (e ++ ".gz")) = alookup (String (lower t) "") ext) /\
+     (contains ".rnx" ("." ++ e) = false ->
+      sys_of_name V212 ext (stem ++ String "." e) = alookup (String (lower t) "") ext /\
+      sys_of_name V212 ext (stem ++ String "." (e ++ ".gz")) = alookup (String (lower t) "") ext)) /\
+  (forall s, alookup s ext_map_rinex2_nav = alookup s spec_ext /\ alookup s ext_map_rinex212_nav = alookup s spec_ext) /\
+  map (sys_of_name V212 spec_ext)
+      ["ABCD00NOR_R_20200010000_01D_GN.rnx"; "ABCD00NOR_R_20200010000_01D_EN.rnx.gz"; "ABCD00NOR_R_20200010000_01D_cN.rnx";
+       "ABCD00NOR_R_20200010000_01D_JN.rnx"; "ABCD00NOR_R_20200010000_01D_IN.rnx.gz"]
+  = [Some "G"; Some "E"; Some "C"; Some "J"; Some "I"].
+Proof.
+  exact (conj (fun stem e t ext H1 H2 H3 H4 => conj (system_short_v2 stem e t H1 H2 H3 H4 ext) (system_short_v212 stem e t H1 H2 H3 H4 ext))
+              (conj ext_maps_spec long_names)).
+Qed.
+Print Assumptions v2_system_from_name.
 
 (* non-vacuity *)
 Example wf_records_exist :
